@@ -149,8 +149,62 @@ def r7_initial_dtype(ctx):
     rep.note(f"C09.R7: {nfn} functions of interactions / constraints / force laws / actuators scanned for buffers typed by initial coordinates")
 
 
+def r8_shared_initial_state(ctx):
+    """A force law's default l_ref assumes the internal state it was CONSTRUCTED with (Maxwell: relaxed damper, q0 = 0).  Two sites can
+    break that together: (S1) a constructor that stores a parameter whose default is a mutable array (q0=np.zeros(1)) without copying - all
+    instances built with the default share ONE array, the default itself; (S2) an in-place write into another object's q0 / u0
+    (`contr.q0[:] = ...` in System.set_new_initial_state).  With both, a restart writes the reached damper elongation into the default, and
+    every element constructed afterwards starts pre-stressed.  Each site alone is harmless; the rule reports S2 when S1 exists."""
+    rep = ctx.rep
+    s1 = []
+    for rel, mod in sorted(ctx.repo.modules.items()):
+        if not rel.startswith("cardillo/"):
+            continue
+        for q, fn in mod.defs().items():
+            if not (isinstance(fn, ast.FunctionDef) and fn.name == "__init__"):
+                continue
+            args = fn.args.args
+            defaults = dict(zip([a.arg for a in args[len(args) - len(fn.args.defaults):]], fn.args.defaults))
+            for name, d in defaults.items():
+                if name in INIT_SUFFIXES and isinstance(d, ast.Call) and (dotted(d.func) or "").split(".")[-1] in ("zeros", "ones", "array", "empty", "full"):
+                    for st in ast.walk(fn):
+                        if isinstance(st, ast.Assign) and any(dotted(t) == f"self.{name}" for t in st.targets) and isinstance(st.value, ast.Name) and st.value.id == name:
+                            s1.append((rel, q, name, st))
+    s2 = []
+    for rel in ("cardillo/system.py",):
+        mod = ctx.repo.module(rel)
+        for q, fn in mod.defs().items():
+            if not isinstance(fn, ast.FunctionDef):
+                continue
+            for st in ast.walk(fn):
+                tg = st.targets if isinstance(st, ast.Assign) else ([st.target] if isinstance(st, ast.AugAssign) else [])
+                for t in tg:
+                    b = t
+                    sub = False
+                    while isinstance(b, ast.Subscript):
+                        b, sub = b.value, True
+                    inplace = sub or isinstance(st, ast.AugAssign)
+                    if inplace and isinstance(b, ast.Attribute) and b.attr in INIT_SUFFIXES and isinstance(b.value, ast.Name) and b.value.id != "self":
+                        s2.append((rel, q, st))
+    for rel, q, name, st in s1:
+        if not s2:
+            rep.ok("C09.R8", f"{rel}:{q}", f"`self.{name} = {name}` stores the shared default array uncopied; harmless because System never writes into a contribution's {name} in place (it re-binds it)")
+    for rel, q, st in s2:
+        if s1:
+            who = ", ".join(f"{r.split('/')[-1]}:{qq}" for r, qq, _, _ in s1)
+            rep.bad("C09.R8", f"{rel}:{q}", st, f"`{norm_src(st)}` overwrites a contribution's initial state in place; {who} store(s) the mutable default array of the parameter uncopied, so all "
+                    "elements built with the default share that one array: after a restart every force law constructed later starts from the restart's internal state while its default "
+                    "l_ref assumes the relaxed one (pre-stressed in the initial configuration)", f"{rel}:{st.lineno}")
+        else:
+            rep.ok("C09.R8", f"{rel}:{q}", f"`{norm_src(st)}`: in-place write, but no constructor stores a shared default array")
+    if not s1 and not s2:
+        rep.ok("C09.R8", "cardillo/", "no constructor stores a mutable default of q0 / u0 uncopied and System re-binds the contributions' initial state")
+
+
 def run(ctx):
     rep = ctx.rep
+    rep.rule("C09.R8", "initial internal state of force laws is not shared: no in-place write into a contribution's q0 / u0 while a constructor stores a mutable default array uncopied", 1)
+    r8_shared_initial_state(ctx)
     rep.rule("C09.R7", "initial coordinates reach the default reference length as floating point and un-truncated", 4)
     r7_initial_dtype(ctx)
     rep.rule("C09.R1", "subsystem protocol on the default l_ref path", 12)
@@ -424,6 +478,11 @@ MUTANTS += [
                 ("cardillo/discrete/point_mass.py", "np.asarray(q0, dtype=float)", "np.asarray(q0)")], expect="C09.R7"),
     dict(id="c09-r7-1", what="RigidBody keeps the dtype of a user-supplied q0 (original defect F46)", file="cardillo/discrete/rigid_body.py",
          old="            else np.asarray(q0, dtype=float)\n", new="            else np.asarray(q0)\n", expect="C09.R7"),
+]
+SYS_ = "cardillo/system.py"
+MUTANTS += [
+    dict(id="c09-r8-seed", canary=True, what="[seeded by sub-agent] set_new_initial_state copies the restart state into the contributions' q0 / u0 in place (MaxwellElement stores its default q0 uncopied)", file=SYS_,
+         old="                contr.q0 = q0[contr.my_qDOF]\n", new="                contr.q0[:] = q0[contr.my_qDOF]\n", expect="C09.R8"),
 ]
 NEUTRAL = [
     dict(id="c09-n-r7b", canary=True, what="TwoPointInteraction joins q0 in a buffer typed by the first part (harmless since bodies store float: the sub-agent's change after fix F46)", file=TPI,
